@@ -10,14 +10,14 @@ Local Open Scope list_scope.
 
 (* For every base >= 1 and every action list with non-negative lengths in which a raw
    string's line offsets are followed (after position assignments only) by the advance over
-   the string, and in which no "\n" decoration is executed before anything has been emitted
-   (the carve-out is the recorded finding c12-first-emission-newline): if the restorer does
+   the string (no carve-out is left: a "\n" decoration as the first thing of a file used to duplicate
+   line offset 0 -- finding first-emission-newline, fixed by 3dd4b07): if the restorer does
    not panic, SetLines succeeds -- the line table is strictly increasing and inside the file
    -- every assigned position is NoPos or inside [base, base+size], and every comment lies
    inside the file. *)
 Theorem C12_position_space_coherent :
   forall b acts,
-  1 <= b -> Forall act_ok acts -> safe 0 acts -> nlbad (init_r b) acts = false ->
+  1 <= b -> Forall act_ok acts -> safe 0 acts ->
   panic (run_acts b acts) = None ->
   exists r, finish (run_acts b acts) = Ok r /\
     strictly_increasing (r_lines r) = true /\ Forall (fun o => 0 <= o < r_size r) (r_lines r) /\
@@ -30,10 +30,10 @@ Proof. exact run_coherent. Qed.
    emission order. *)
 Theorem C12_cursor_monotone :
   forall acts s k,
-  J s k -> Forall act_ok acts -> safe k acts -> nlbad s acts = false ->
+  J s k -> Forall act_ok acts -> safe k acts ->
   panic (fold_left rstep acts s) = None ->
   cursor s <= cursor (fold_left rstep acts s) /\ base (fold_left rstep acts s) = base s.
-Proof. intros acts s k HJ Hok Hs Hn Hp. destruct (run_J acts s k HJ Hok Hs Hn Hp) as [_ H]. exact H. Qed.
+Proof. intros acts s k HJ Hok Hs Hp. destruct (run_J acts s k HJ Hok Hs Hp) as [_ H]. exact H. Qed.
 
 (* Files restored one after another into one FileSet do not overlap: FileSet.AddFile(name,
    base, size) with base = fset.Base() leaves fset.Base() = base + size + 1 (the FileSet is
@@ -46,24 +46,24 @@ Theorem C12_files_disjoint :
   b1 + r_size r1 < b2 /\ 1 <= b2.
 Proof. intros. cbn zeta. split; lia. Qed.
 
-(* The excluded case is real: a "\n" first emission duplicates line offset 0. *)
-Example C12_first_emission_newline_refuted :
+(* A "\n" as the first thing emitted in a file starts line 2 at offset 1 (before 3dd4b07 it
+   duplicated line offset 0 and SetLines failed). *)
+Example C12_first_emission_newline :
   let acts := [AEnter 1; ASpace false false SNone; ADecs 1 "File" "Start" false [DNl]; AAdv 7] in
-  nlbad (init_r 1) acts = true /\ finish (run_acts 1 acts) = Panic "ff.SetLines failed".
-Proof. vm_compute. split; reflexivity. Qed.
+  exists r, finish (run_acts 1 acts) = Ok r /\ r_lines r = [0; 1].
+Proof. eexists. split; [vm_compute; reflexivity|reflexivity]. Qed.
 
 Example C12_nonvacuous :
   let acts := [AEnter 1; ASpace false false SNone; ADecs 1 "File" "Start" false [DLine 5 1];
                ASetPos 1 ["Package"]; AAdv 7; ALit 9 [3; 5]; ASetPos 2 ["ValuePos"]; AAdv 9;
                ASpace false true SEmptyLine] in
-  Forall act_ok acts /\ safe 0 acts /\ nlbad (init_r 1) acts = false /\
+  Forall act_ok acts /\ safe 0 acts /\
   finish (run_acts 1 acts) =
     Ok (mkRestored [0; 5; 17; 19; 24; 26] 27 [mkGroup 0 [(1, 5, 1%N)]] [(1%N, ["Package"], 8); (2%N, ["ValuePos"], 15)]).
 Proof.
-  cbn zeta. split; [|split; [|split]].
+  cbn zeta. split; [|split].
   - repeat constructor; cbn; lia.
   - cbn. repeat split; lia.
-  - vm_compute. reflexivity.
   - vm_compute. reflexivity.
 Qed.
 
